@@ -50,9 +50,14 @@ fn ver_op(out: &mut Out, name: &str, compat: bool, bs: &[u8]) -> bool {
                 Ok(None) => out.oracle_fail("sweep-reject", &format!("{} verified but from_*_slice rejected: {}", name, hex(bs))),
                 Err(e) => {
                     let text = panic_text(e);
-                    let class = if compat && is_empty_table_quirk(&text) { "accessor-panic-empty-table-compat" } else { "accessor-panic" };
-                    out.count(class);
-                    out.oracle_fail(class, &format!("{} mode={} bytes={} panic={}", name, mode(compat), hex(bs), text));
+                    if !compat || COMPAT_ONLY_ENTRY_TYPES.contains(&name) {
+                        out.count("accessor-panic");
+                        out.oracle_fail("accessor-panic", &format!("{} mode={} bytes={} panic={}", name, mode(compat), hex(bs), text));
+                    } else {
+                        // informational: this type is never decoded in compatible mode from peer bytes
+                        // without a strict re-check (see the gates), so the property does not speak about it
+                        out.count("info-compat-only-accessor-panic");
+                    }
                 }
             }
             true
@@ -70,9 +75,11 @@ fn ver_op(out: &mut Out, name: &str, compat: bool, bs: &[u8]) -> bool {
     }
 }
 
-fn is_empty_table_quirk(text: &str) -> bool {
-    text.contains("out of range") || text.contains("subtract with overflow")
-}
+/// Message types a handler decodes with `from_compatible_slice` only (no strict re-check):
+/// network/src/protocols/{identify,discovery,ping}, sync/src/filter/mod.rs.  SendBlock /
+/// CompactBlock are compatible too, but only through the gates (`gate` ops).  For these the
+/// accessor sweep in compatible mode is part of the oracle; for every other type it is a counter.
+const COMPAT_ONLY_ENTRY_TYPES: &[&str] = &["IdentifyMessage", "DiscoveryMessage", "PingMessage", "BlockFilterMessage", "GetNodes2", "Node2"];
 
 /// `Synchronizer::received` / `Relayer::received` accept logic, on the real readers
 fn gate_sync(bs: &[u8]) -> String {
@@ -172,10 +179,15 @@ fn gate_op(out: &mut Out, which: &str, bs: &[u8]) {
             out.op(&op, &ans);
             out.count(&format!("gate-{}-{}", which, ans.split(' ').next().unwrap()));
             if ans.starts_with("strict") || ans.starts_with("compat") {
+                let name = if which == "sync" { "SyncMessage" } else { "RelayMessage" };
+                if let Err(e) = catch_unwind(AssertUnwindSafe(|| glue::touch(name, bs, ans.starts_with("compat")))) {
+                    out.count("accessor-panic");
+                    out.oracle_fail("accessor-panic", &format!("{} accepted by the gate ({}) bytes={} panic={}", name, ans, hex(bs), panic_text(e)));
+                }
                 let r2 = catch_unwind(AssertUnwindSafe(|| if which == "sync" { after_gate_sync(bs) } else { after_gate_relay(bs) }));
                 if let Err(e) = r2 {
                     let text = panic_text(e);
-                    let class = if text.contains("called `Result::unwrap()` on an `Err` value") { "peer-bytes-panic-extension-unwrap" } else { "peer-bytes-panic" };
+                    let class = "peer-bytes-panic";
                     out.count(class);
                     out.oracle_fail(class, &format!("{} message accepted by the handler gate ({}) panics in the first conversion: bytes={} panic={}", which, ans, hex(bs), text));
                 }
